@@ -318,6 +318,33 @@ func (e *c18env) roundTrip(v *wsHdr, rawRepr, fix bool, extra int, recycled *sla
 		return false
 	}
 	ok := true
+	if recycled != nil {
+		// REUSED encoder object: a layer that decoded other packets before gets every exported field assigned and
+		// must serialize exactly like a fresh struct (no stale internal state may leak into the bytes)
+		t := c18ToSlayers(v, rawRepr)
+		recycled.Version, recycled.TrafficClass, recycled.FlowID, recycled.NextHdr = t.Version, t.TrafficClass, t.FlowID, t.NextHdr
+		recycled.HdrLen, recycled.PayloadLen, recycled.PathType = s.HdrLen, s.PayloadLen, t.PathType
+		if fix {
+			recycled.HdrLen, recycled.PayloadLen = 0x33, 0x3333
+		}
+		recycled.DstAddrType, recycled.SrcAddrType, recycled.DstIA, recycled.SrcIA = t.DstAddrType, t.SrcAddrType, t.DstIA, t.SrcIA
+		recycled.RawDstAddr, recycled.RawSrcAddr, recycled.Path = t.RawDstAddr, t.RawSrcAddr, t.Path
+		buf2 := gopacket.NewSerializeBuffer()
+		if extra > 0 {
+			pl, _ := buf2.AppendBytes(extra)
+			for i := range pl {
+				pl[i] = 0xa5
+			}
+		}
+		if p := mc.Safely(func() { err = recycled.SerializeTo(buf2, gopacket.SerializeOptions{FixLengths: fix}) }); p != nil || err != nil {
+			e.bad("enc-error-reused-layer:"+what, fmt.Sprintf("%+v: %v %v", v, p, err))
+			return false
+		}
+		if !bytes.Equal(buf2.Bytes(), got) {
+			e.bad("enc-layout-reused-layer:"+what, fmt.Sprintf("value %+v\n reused %x\n fresh  %x", v, buf2.Bytes(), got))
+			ok = false
+		}
+	}
 	for pass := 0; pass < 2; pass++ {
 		d := &slayers.SCION{}
 		if pass == 1 {
@@ -761,21 +788,49 @@ type c18extLayer interface {
 	DecodeFromBytes([]byte, gopacket.DecodeFeedback) error
 }
 
-func c18MkExt(e2e bool, next uint8, extLen uint8, opts []wsOpt) c18extLayer {
+// c18extReuse holds extension layers that live across cases: every case re-assigns their exported fields, re-uses the
+// option objects currently hanging on them (pooled ones or those a previous decode produced; OptData gets a new
+// slice because decoded options alias overlapping parts of the old packet), serializes from them and decodes back into the very same object.
+type c18extReuse struct {
+	hbh slayers.HopByHopExtn
+	e2e slayers.EndToEndExtn
+}
+
+func c18MkExt(e2e bool, next uint8, extLen uint8, opts []wsOpt, ru *c18extReuse) c18extLayer {
 	if e2e {
 		x := &slayers.EndToEndExtn{}
+		var old []*slayers.EndToEndOption
+		if ru != nil {
+			x = &ru.e2e
+			old = x.Options
+			x.Options = x.Options[:0]
+		}
 		x.NextHdr, x.ExtLen = slayers.L4ProtocolType(next), extLen
-		for _, o := range opts {
-			x.Options = append(x.Options, &slayers.EndToEndOption{OptType: slayers.OptionType(o.Type),
-				OptData: append([]byte{}, o.Data...), OptDataLen: uint8(len(o.Data)), OptAlign: o.Align})
+		for i, o := range opts {
+			po := &slayers.EndToEndOption{}
+			if i < len(old) && old[i] != nil {
+				po = old[i]
+			}
+			po.OptType, po.OptData, po.OptDataLen, po.OptAlign = slayers.OptionType(o.Type), append([]byte(nil), o.Data...), uint8(len(o.Data)), o.Align
+			x.Options = append(x.Options, po)
 		}
 		return x
 	}
 	x := &slayers.HopByHopExtn{}
+	var old []*slayers.HopByHopOption
+	if ru != nil {
+		x = &ru.hbh
+		old = x.Options
+		x.Options = x.Options[:0]
+	}
 	x.NextHdr, x.ExtLen = slayers.L4ProtocolType(next), extLen
-	for _, o := range opts {
-		x.Options = append(x.Options, &slayers.HopByHopOption{OptType: slayers.OptionType(o.Type),
-			OptData: append([]byte{}, o.Data...), OptDataLen: uint8(len(o.Data)), OptAlign: o.Align})
+	for i, o := range opts {
+		po := &slayers.HopByHopOption{}
+		if i < len(old) && old[i] != nil {
+			po = old[i]
+		}
+		po.OptType, po.OptData, po.OptDataLen, po.OptAlign = slayers.OptionType(o.Type), append([]byte(nil), o.Data...), uint8(len(o.Data)), o.Align
+		x.Options = append(x.Options, po)
 	}
 	return x
 }
@@ -815,20 +870,24 @@ func c18NextAllowed(e2e bool, next uint8) bool {
 	return true
 }
 
-func (e *c18env) extCase(e2e bool, next uint8, opts []wsOpt, fix bool) (outcome string) {
+func (e *c18env) extCase(e2e bool, next uint8, opts []wsOpt, fix bool, ru *c18extReuse) (outcome string) {
 	kind := "hbh"
 	if e2e {
 		kind = "e2e"
+	}
+	if ru != nil {
+		kind += "(reused objects)"
 	}
 	total := 2
 	for _, o := range opts {
 		total += o.size()
 	}
 	extLen := uint8(total/4 - 1)
-	l := c18MkExt(e2e, next, extLen, opts)
 	if fix {
-		l = c18MkExt(e2e, next, 0x55, opts)
+		extLen = 0x55
 	}
+	l := c18MkExt(e2e, next, extLen, opts, ru)
+	extLen = uint8(total/4 - 1)
 	buf := gopacket.NewSerializeBuffer()
 	tail, _ := buf.AppendBytes(3)
 	copy(tail, []byte{0xe1, 0xe2, 0xe3})
@@ -870,7 +929,11 @@ func (e *c18env) extCase(e2e bool, next uint8, opts []wsOpt, fix bool) (outcome 
 	if e2e {
 		d = &slayers.EndToEndExtn{}
 	}
+	if ru != nil {
+		d = l // decode back into the object that was just serialized
+	}
 	data := append([]byte{}, buf.Bytes()...)
+	got = append([]byte{}, got...)
 	if p := mc.Safely(func() { err = d.DecodeFromBytes(data, &c18fb{}) }); p != nil {
 		e.bad("ext-dec-panic-on-serialized:"+kind, fmt.Sprintf("%x: %v", data, p))
 		return "violation"
@@ -952,12 +1015,17 @@ func (e *c18env) encExt() int64 {
 	gen(nil)
 	var n atomic.Int64
 	var oc sync.Map
+	var rus sync.Pool
+	rus.New = func() any { return &c18extReuse{} }
 	mc.ParallelFor(len(seqs), func(i int) {
 		var cnt int64
+		ru := rus.Get().(*c18extReuse) // keeps living across the sequences one worker happens to process
+		defer rus.Put(ru)
 		for _, e2e := range []bool{false, true} {
 			for _, fix := range []bool{false, true} {
-				oc.Store(e.extCase(e2e, 17, seqs[i], fix), true)
-				cnt++
+				oc.Store(e.extCase(e2e, 17, seqs[i], fix, nil), true)
+				oc.Store(e.extCase(e2e, 17, seqs[i], fix, ru), true)
+				cnt += 2
 			}
 		}
 		n.Add(cnt)
@@ -965,12 +1033,14 @@ func (e *c18env) encExt() int64 {
 	})
 	// NextHdr: all 256 values on a handful of option layouts
 	var cnt int64
+	ru0 := &c18extReuse{}
 	for _, si := range []int{0, 1, 9, len(alpha), len(seqs) - 1} {
 		for next := 0; next < 256; next++ {
 			for _, e2e := range []bool{false, true} {
 				for _, fix := range []bool{false, true} {
-					oc.Store(e.extCase(e2e, uint8(next), seqs[si], fix), true)
-					cnt++
+					oc.Store(e.extCase(e2e, uint8(next), seqs[si], fix, nil), true)
+					oc.Store(e.extCase(e2e, uint8(next), seqs[si], fix, ru0), true)
+					cnt += 2
 				}
 			}
 		}
@@ -1008,47 +1078,203 @@ func (e *c18env) spaoCase(spi uint32, alg uint8, ts uint64, auth []byte) {
 		e.bad("spao-new", err.Error())
 		return
 	}
-	x := &slayers.EndToEndExtn{Options: []*slayers.EndToEndOption{o.EndToEndOption}}
-	x.NextHdr = slayers.L4UDP
-	buf := gopacket.NewSerializeBuffer()
-	if err := x.SerializeTo(buf, gopacket.SerializeOptions{FixLengths: true}); err != nil {
-		e.bad("spao-serialize", err.Error())
-		return
+	e.spaoVerify(o, spi, alg, ts, auth, "fresh")
+}
+
+// spaoVerify: the option object o is claimed to hold (spi, alg, ts, auth). Its accessors, its serialization inside an
+// E2E extension (with FixLengths and, hand-padded, without) and the decoded copy must all say exactly that.
+func (e *c18env) spaoVerify(o slayers.PacketAuthOption, spi uint32, alg uint8, ts uint64, auth []byte, how string) bool {
+	ok := true
+	fail := func(key, detail string) {
+		ok = false
+		e.bad(key, "["+how+"] "+detail)
+	}
+	if uint32(o.SPI()) != spi || uint8(o.Algorithm()) != alg || o.TimestampSN() != ts || !bytes.Equal(o.Authenticator(), auth) {
+		fail("roundtrip-field:SPAO(accessors of the written option)", fmt.Sprintf("wrote spi %x alg %d ts %x auth %x, option says %x %d %x %x",
+			spi, alg, ts, auth, o.SPI(), o.Algorithm(), o.TimestampSN(), o.Authenticator()))
 	}
 	want := c18SPAO(spi, alg, ts, auth)
-	got := buf.Bytes()
-	// documented: NextHdr, ExtLen, then the option 4n+2 aligned => directly at offset 2
-	wb := wsExtBytes(17, uint8((2+want.size()+3)/4-1), []wsOpt{want})
-	if len(got) < len(wb) || !bytes.Equal(got[:len(wb)], wb) {
-		e.bad("spao-layout", fmt.Sprintf("got %x want prefix %x", got, wb))
-		return
-	}
-	var d slayers.EndToEndExtn
-	if err := d.DecodeFromBytes(append([]byte{}, got...), &c18fb{}); err != nil {
-		e.bad("spao-decode", err.Error())
-		return
-	}
-	fo, err := d.FindOption(slayers.OptTypeAuthenticator)
-	if err != nil {
-		e.bad("spao-find", err.Error())
-		return
-	}
-	po, err := slayers.ParsePacketAuthOption(fo)
-	if err != nil {
-		e.bad("spao-parse", err.Error())
-		return
-	}
-	if uint32(po.SPI()) != spi || uint8(po.Algorithm()) != alg || po.TimestampSN() != ts || !bytes.Equal(po.Authenticator(), auth) {
-		e.bad("roundtrip-field:SPAO", fmt.Sprintf("spi %x alg %d ts %x auth %x -> %x %d %x %x", spi, alg, ts, auth,
-			po.SPI(), po.Algorithm(), po.TimestampSN(), po.Authenticator()))
+	for _, fix := range []bool{false, true} { // without FixLengths first: that serializer must not get lengths repaired by an earlier pass
+		x := &slayers.EndToEndExtn{Options: []*slayers.EndToEndOption{o.EndToEndOption}}
+		x.NextHdr = slayers.L4UDP
+		wopts := []wsOpt{want}
+		if !fix {
+			// the caller pads: Pad1 / PadN(0) up to a multiple of 4
+			switch (4 - (2+want.size())%4) % 4 {
+			case 1:
+				wopts = append(wopts, wsOpt{Type: 0})
+			case 2:
+				wopts = append(wopts, wsOpt{Type: 1})
+			case 3:
+				wopts = append(wopts, wsOpt{Type: 0}, wsOpt{Type: 1})
+			}
+			for _, w := range wopts[1:] {
+				x.Options = append(x.Options, &slayers.EndToEndOption{OptType: slayers.OptionType(w.Type)})
+			}
+			tot := 2
+			for _, w := range wopts {
+				tot += w.size()
+			}
+			x.ExtLen = uint8(tot/4 - 1)
+		}
+		buf := gopacket.NewSerializeBuffer()
+		if err := x.SerializeTo(buf, gopacket.SerializeOptions{FixLengths: fix}); err != nil {
+			fail("spao-serialize", fmt.Sprintf("fix=%v auth len %d: %v", fix, len(auth), err))
+			continue
+		}
+		got := buf.Bytes()
+		// documented: NextHdr, ExtLen, then the option 4n+2 aligned => directly at offset 2
+		wb := wsExtBytes(17, uint8((2+want.size()+3)/4-1), wopts)
+		if len(got) < len(wb) || !bytes.Equal(got[:len(wb)], wb) || (!fix && len(got) != len(wb)) || len(got) != (2+want.size()+3)/4*4 {
+			fail("spao-layout", fmt.Sprintf("fix=%v got %x want prefix %x", fix, got, wb))
+			continue
+		}
+		var d slayers.EndToEndExtn
+		if err := d.DecodeFromBytes(append([]byte{}, got...), &c18fb{}); err != nil {
+			fail("spao-decode", err.Error())
+			continue
+		}
+		fo, err := d.FindOption(slayers.OptTypeAuthenticator)
+		if err != nil {
+			fail("spao-find", err.Error())
+			continue
+		}
+		po, err := slayers.ParsePacketAuthOption(fo)
+		if err != nil {
+			fail("spao-parse", err.Error())
+			continue
+		}
+		if uint32(po.SPI()) != spi || uint8(po.Algorithm()) != alg || po.TimestampSN() != ts || !bytes.Equal(po.Authenticator(), auth) {
+			fail("roundtrip-field:SPAO", fmt.Sprintf("fix=%v spi %x alg %d ts %x auth %x -> %x %d %x %x", fix, spi, alg, ts, auth,
+				po.SPI(), po.Algorithm(), po.TimestampSN(), po.Authenticator()))
+		}
 	}
 	// SPI sub-fields as documented: bit 17 = type (0 AS-host,1 host-host), bit 16 = direction, low 16 = protocol,
 	// DRKey iff 0 < SPI < 2^21
 	s := slayers.PacketAuthSPI(spi)
 	if (s.Type() == slayers.PacketAuthHostHost) != (spi&(1<<17) != 0) || (s.Direction() == slayers.PacketAuthReceiverSide) != (spi&(1<<16) != 0) ||
 		s.DRKeyProto() != uint16(spi) || s.IsDRKey() != (spi > 0 && spi < 1<<21) {
-		e.bad("spao-spi-subfields", fmt.Sprintf("%x", spi))
+		fail("spao-spi-subfields", fmt.Sprintf("%x", spi))
 	}
+	return ok
+}
+
+// encReuse: histories on ONE PacketAuthOption object. Origins: NewPacketAuthOption with every authenticator size, an
+// option decoded out of a packet buffer (its OptData aliases the packet, with 0 / few / many spare bytes behind it),
+// and a bare option; followed by every sequence of Resets (quick: up to 2, thorough: up to 3) over the size alphabet,
+// i.e. shorter, equal and longer data than before, with fresh SPI/algorithm/timestamp/authenticator bytes each time.
+// After every step the object must describe exactly what was written last.
+func (e *c18env) encReuse() int64 {
+	sizes := []int{0, 1, 4, 16, 20, 32, 36, 64, 243}
+	steps := mc.Pick(2, 3)
+	type origin struct {
+		kind  string
+		size  int
+		spare int
+	}
+	var origins []origin
+	origins = append(origins, origin{"bare", 0, 0})
+	for _, sz := range sizes {
+		origins = append(origins, origin{"new", sz, 0})
+		for _, sp := range []int{0, 5, 300} {
+			origins = append(origins, origin{"decoded", sz, sp})
+		}
+	}
+	mkAuth := func(n, salt int) []byte {
+		a := make([]byte, n)
+		for i := range a {
+			a[i] = byte(0x11*salt + i*3 + 1)
+		}
+		return a
+	}
+	params := func(step int) (uint32, uint8, uint64) {
+		return []uint32{0x00010019, 0x00200001, 0x0003ffff, 1}[step%4], []uint8{0, 1, 0xfd, 2}[step%4],
+			[]uint64{0x0102030405, 0xffffffffffff, 0, 0x800000000001}[step%4]
+	}
+	var n atomic.Int64
+	var okHist atomic.Int64
+	mc.ParallelFor(len(origins), func(oi int) {
+		og := origins[oi]
+		var cnt int64
+		var walk func(hist []int)
+		walk = func(hist []int) {
+			if len(hist) > 0 {
+				// replay the whole history on a brand-new object (live objects are not cloned)
+				how := fmt.Sprintf("origin %s(auth %d bytes, %d spare) then Reset with authenticator sizes %v", og.kind, og.size, og.spare, hist)
+				e.guard("spao-reuse", func() {
+					var o slayers.PacketAuthOption
+					spi0, alg0, ts0 := params(7)
+					a0 := mkAuth(og.size, 9)
+					switch og.kind {
+					case "bare":
+						o = slayers.PacketAuthOption{EndToEndOption: new(slayers.EndToEndOption)}
+					case "new":
+						var err error
+						if o, err = slayers.NewPacketAuthOption(slayers.PacketAuthOptionParams{SPI: slayers.PacketAuthSPI(spi0),
+							Algorithm: slayers.PacketAuthAlg(alg0), TimestampSN: ts0, Auth: a0}); err != nil {
+							e.bad("spao-new", err.Error())
+							return
+						}
+					case "decoded":
+						w := c18SPAO(spi0, alg0, ts0, a0)
+						tot := (2 + w.size() + 3) / 4 * 4
+						pkt := wsExtBytes(17, uint8(tot/4-1), []wsOpt{w})
+						for len(pkt) < tot {
+							pkt = append(pkt, 0) // Pad1
+						}
+						full := make([]byte, len(pkt)+og.spare)
+						copy(full, pkt)
+						for i := len(pkt); i < len(full); i++ {
+							full[i] = 0x5a // upper-layer bytes behind the extension header
+						}
+						var d slayers.EndToEndExtn
+						if err := d.DecodeFromBytes(full, &c18fb{}); err != nil {
+							e.r.HarnessError("spao reuse origin does not decode: %v", err)
+							return
+						}
+						fo, err := d.FindOption(slayers.OptTypeAuthenticator)
+						if err != nil {
+							e.r.HarnessError("spao reuse origin: %v", err)
+							return
+						}
+						if o, err = slayers.ParsePacketAuthOption(fo); err != nil {
+							e.r.HarnessError("spao reuse origin: %v", err)
+							return
+						}
+					}
+					for step, sz := range hist {
+						spi, alg, ts := params(step)
+						auth := mkAuth(sz, step+1)
+						if err := o.Reset(slayers.PacketAuthOptionParams{SPI: slayers.PacketAuthSPI(spi), Algorithm: slayers.PacketAuthAlg(alg),
+							TimestampSN: ts, Auth: auth}); err != nil {
+							e.bad("spao-reset-error", how+": "+err.Error())
+							return
+						}
+						if step == len(hist)-1 { // earlier prefixes were verified when they were the whole history
+							cnt++
+							if e.spaoVerify(o, spi, alg, ts, auth, how) {
+								okHist.Add(1)
+							}
+						}
+					}
+				})
+			}
+			if len(hist) == steps {
+				return
+			}
+			for _, sz := range sizes {
+				walk(append(append([]int{}, hist...), sz))
+			}
+		}
+		walk(nil)
+		n.Add(cnt)
+		e.r.CaseBulk(cnt, cnt)
+	})
+	if okHist.Load() > 0 {
+		e.r.Outcome("reused-option-roundtrip-ok")
+	}
+	e.r.Extra["spao_reuse_histories"] = n.Load()
+	return n.Load()
 }
 
 // ---- L4 ----
@@ -1068,12 +1294,15 @@ func (e *c18env) encL4() int64 {
 	}
 	payloads := [][]byte{nil, {0x11}, {0x11, 0x22}, {1, 2, 3, 4, 5}}
 	// UDP
+	pu := &slayers.UDP{}
 	for _, sp := range c18v16 {
 		for _, dp := range c18v16 {
 			for _, ck := range c18v16 {
 				for _, pl := range payloads {
 					for _, ln := range []int{-1, 0, 8, 8 + len(pl), 9 + len(pl), 0xffff} {
-						u := &slayers.UDP{SrcPort: sp, DstPort: dp, Checksum: ck}
+						// REUSED object: the layer that decoded the previous case encodes this one
+						u := pu
+						u.SrcPort, u.DstPort, u.Checksum = sp, dp, ck // Length: stale unless set below (FixLengths must overwrite it)
 						wantLen := uint16(8 + len(pl))
 						if ln >= 0 {
 							u.Length, wantLen = uint16(ln), uint16(ln)
@@ -1093,6 +1322,7 @@ func (e *c18env) encL4() int64 {
 							continue
 						}
 						var d slayers.UDP
+						mc.Safely(func() { pu.DecodeFromBytes(append([]byte{}, got...), &c18fb{}) })
 						fb := &c18fb{}
 						var err error
 						if p := mc.Safely(func() { err = d.DecodeFromBytes(append([]byte{}, got...), fb) }); p != nil {
@@ -1120,9 +1350,11 @@ func (e *c18env) encL4() int64 {
 	}
 	e.r.Outcome("udp-roundtrip-ok")
 	// SCMP base header: all 65536 type/code values
+	ps := &slayers.SCMP{}
 	for tc := 0; tc < 65536; tc++ {
 		for _, ck := range []uint16{0, 0xffff, 0x1234} {
-			s := &slayers.SCMP{TypeCode: slayers.CreateSCMPTypeCode(slayers.SCMPType(tc>>8), slayers.SCMPCode(tc)), Checksum: ck}
+			s := ps
+			s.TypeCode, s.Checksum = slayers.CreateSCMPTypeCode(slayers.SCMPType(tc>>8), slayers.SCMPCode(tc)), ck
 			got, ok := ser(s, []byte{9, 8, 7}, false)
 			cnt++
 			if !ok {
@@ -1134,6 +1366,7 @@ func (e *c18env) encL4() int64 {
 				continue
 			}
 			var d slayers.SCMP
+			mc.Safely(func() { ps.DecodeFromBytes(append([]byte{}, got...), &c18fb{}) })
 			var err error
 			if p := mc.Safely(func() { err = d.DecodeFromBytes(append([]byte{}, got...), &c18fb{}) }); p != nil {
 				e.bad("dec-panic-on-serialized:SCMP", fmt.Sprintf("%x: %v", got, p))
@@ -1182,20 +1415,33 @@ func (e *c18env) encL4() int64 {
 			e.bad("roundtrip-field:"+name, fmt.Sprintf("%x -> %+v", got, back))
 		}
 	}
+	// persistent message objects (encoder/decoder roles alternate)
+	pe := [2]*slayers.SCMPExternalInterfaceDown{{}, {}}
+	pi := [2]*slayers.SCMPInternalConnectivityDown{{}, {}}
+	pt := [2]*slayers.SCMPTraceroute{{}, {}}
+	pc := [2]*slayers.SCMPEcho{{}, {}}
+	pp := [2]*slayers.SCMPParameterProblem{{}, {}}
+	pb := [2]*slayers.SCMPPacketTooBig{{}, {}}
 	be64 := func(b []byte, v uint64) []byte { return binary.BigEndian.AppendUint64(b, v) }
 	be16 := func(b []byte, v uint16) []byte { return binary.BigEndian.AppendUint16(b, v) }
 	for _, ia := range c18v64 {
 		for _, a := range c18v64 {
-			m, b := &slayers.SCMPExternalInterfaceDown{IA: addr.IA(ia), IfID: a}, &slayers.SCMPExternalInterfaceDown{}
+			m, b := pe[0], pe[1]
+			pe[0], pe[1] = b, m // the object that decodes this case encodes the next one
+			m.IA, m.IfID = addr.IA(ia), a
 			check("SCMPExternalInterfaceDown", m, b, be64(be64(nil, ia), a), func() bool { return b.IA == m.IA && b.IfID == m.IfID })
 			for _, c := range c18v64 {
-				m, b := &slayers.SCMPInternalConnectivityDown{IA: addr.IA(ia), Ingress: a, Egress: c}, &slayers.SCMPInternalConnectivityDown{}
+				m, b := pi[0], pi[1]
+				pi[0], pi[1] = b, m
+				m.IA, m.Ingress, m.Egress = addr.IA(ia), a, c
 				check("SCMPInternalConnectivityDown", m, b, be64(be64(be64(nil, ia), a), c),
 					func() bool { return b.IA == m.IA && b.Ingress == m.Ingress && b.Egress == m.Egress })
 			}
 			for _, id := range c18v16 {
 				for _, sq := range c18v16 {
-					m, b := &slayers.SCMPTraceroute{Identifier: id, Sequence: sq, IA: addr.IA(ia), Interface: a}, &slayers.SCMPTraceroute{}
+					m, b := pt[0], pt[1]
+					pt[0], pt[1] = b, m
+					m.Identifier, m.Sequence, m.IA, m.Interface = id, sq, addr.IA(ia), a
 					check("SCMPTraceroute", m, b, be64(be64(be16(be16(nil, id), sq), ia), a),
 						func() bool {
 							return b.Identifier == id && b.Sequence == sq && b.IA == m.IA && b.Interface == a
@@ -1207,11 +1453,17 @@ func (e *c18env) encL4() int64 {
 	for v := 0; v < 65536; v++ {
 		x := uint16(v)
 		y := uint16(v*40503 + 7)
-		m, b := &slayers.SCMPEcho{Identifier: x, SeqNumber: y}, &slayers.SCMPEcho{}
+		m, b := pc[0], pc[1]
+		pc[0], pc[1] = b, m
+		m.Identifier, m.SeqNumber = x, y
 		check("SCMPEcho", m, b, be16(be16(nil, x), y), func() bool { return b.Identifier == x && b.SeqNumber == y })
-		m2, b2 := &slayers.SCMPParameterProblem{Pointer: x}, &slayers.SCMPParameterProblem{}
+		m2, b2 := pp[0], pp[1]
+		pp[0], pp[1] = b2, m2
+		m2.Pointer = x
 		check("SCMPParameterProblem", m2, b2, be16([]byte{0, 0}, x), func() bool { return b2.Pointer == x })
-		m3, b3 := &slayers.SCMPPacketTooBig{MTU: x}, &slayers.SCMPPacketTooBig{}
+		m3, b3 := pb[0], pb[1]
+		pb[0], pb[1] = b3, m3
+		m3.MTU = x
 		check("SCMPPacketTooBig", m3, b3, be16([]byte{0, 0}, x), func() bool { return b3.MTU == x })
 	}
 	m4, b4 := &slayers.SCMPDestinationUnreachable{}, &slayers.SCMPDestinationUnreachable{}
